@@ -18,7 +18,14 @@ RULE = ('abstract records of the seven table types are drawn field by field from
         '(tie).  Directed streams: one minimal witness per split field, every id-string encoding x every length '
         '0..16 (+ up to 30 bytes) on every record type that has one (BCD plus digits drawn from all sixteen codes of '
         'section 43.15, biased to Dh / Eh / Fh; directed strings with those codes in the high and in the low nibble on '
-        'all five record types), every channel nibble 0..15 x low nibbles 0, 1, 5, 10, 15 of byte 9 of the FRU device '
+        'all five record types; 8-bit strings - types 11b and 00b, one character per byte, a backslash is a character - '
+        'on all five record types x both encodings: a pool of printable text that a decoder could take for an escape '
+        '(\\uXXXX / \\UXXXXXXXX complete, truncated, out of range, surrogates, after even / odd runs of backslashes, '
+        'trailing backslash, \\n \\x41 \\101 \\N{..}, %-format, {}-format, &#..; entities) at the front / middle / end '
+        'of the string in every container, 256 strings per type and encoding in which every one of the 16 positions '
+        'takes every byte value, and every ordered pair of adjacent byte values (65 536 pairs as 4 370 16-byte windows of '
+        'an Eulerian circuit; quick: two (type, encoding) combinations chosen by the seed, thorough: all ten)), '
+        'every channel nibble 0..15 x low nibbles 0, 1, 5, 10, 15 of byte 9 of the FRU device '
         'locator (reserved bits) and of byte 8 of the MC confirmation record (device revision), all 64 combinations of '
         'key byte 8 of the FRU device locator (logical/physical flag x access LUN x private bus id), all 16 channel '
         'numbers x 4 owner LUNs of key byte 7 of the full, compact and event-only sensor record, all 256 type bytes '
@@ -346,6 +353,51 @@ def gen_opaque(rng, ty=None, body=None):
 GEN_WITH_ID = {'full': gen_full, 'compact': gen_compact, 'event': gen_event, 'fru': gen_fru, 'mc': gen_mc}
 
 
+# ---- 8-bit id strings (type 11b "8-bit ASCII + Latin 1" and type 00b): one character per byte, EVERY byte value
+# is a character and a backslash is a character like any other.  Printable text that some decoder could take for
+# an escape sequence (raw_unicode_escape, unicode_escape, string_escape, %-formatting, str.format, XML/HTML
+# entities), complete / truncated / out of range / after an even and an odd run of backslashes:
+ESCAPE_POOL = [
+    b'PSU\\u00b0C', b'\\u0041', b'C:\\usb0 5V', b'slot\\U0001F600', b'\\U', b'\\u', b'a\\U0001', b'\\U00110000', b'\\ud800',
+    b'x\\\\\\u0041', b'y\\\\u0041', b'trailing\\', b'\\', b'\\\\', b'a\\nb', b'\\x41', b'\\x4', b'\\101', b'\\t\\r\\0', b'\\N{DEGREE SIGN}',
+    b'\\N{', b'100%', b'%s %d', b'%(a)s', b'{0} {}', b'{', b'&#176;C', b'&amp;', b'\xb0C \\u00b0', b'\xff\\u00ff\x00',
+    b'\\u00b0\\u00b0', b'\\\\u', b'\\u 0041', b'\\uD83D\\uDE00', b'abcdefghij\\u0041', b'\\u0041\\', b'\\"\\\'',
+]
+assert all(len(x) <= 16 for x in ESCAPE_POOL)
+
+
+def id_of_bytes(enc, raw):
+    return '%s:%s' % (enc, ','.join(str(b) for b in bytearray(raw)) if raw else '-')
+
+
+def latin_square_ids(enc, shift):
+    """256 strings of 16 bytes in which every position takes every one of the 256 byte values."""
+    return [id_of_bytes(enc, bytes(((k + 53 * p + shift) % 256) for p in range(16))) for k in range(256)]
+
+
+def all_pairs_ids(enc):
+    """Every ordered pair of byte values adjacent somewhere: the cyclic sequence 0 0 | 0 1 1 0 | ... built as
+    an Eulerian circuit of the complete digraph on 256 values (65 536 edges) cut into 16-byte windows that
+    overlap by one byte."""
+    n = 256
+    # Hierholzer on the complete digraph with loops: next unused successor per vertex
+    nxt = [0] * n
+    stack, circuit = [0], []
+    while stack:
+        v = stack[-1]
+        if nxt[v] < n:
+            w = nxt[v]
+            nxt[v] += 1
+            stack.append(w)
+        else:
+            circuit.append(stack.pop())
+    circuit.reverse()                       # 65 537 vertices, consecutive ones = every edge once
+    out = []
+    for i in range(0, len(circuit) - 1, 15):
+        out.append(id_of_bytes(enc, bytes(circuit[i:i + 16])))
+    return out
+
+
 # ---------------------------------------------------------------------------------------------
 # judging
 
@@ -575,6 +627,38 @@ def run(ctx):
             for n in list(range(0, 17)) + [17, 20, 24, 29, 30]:
                 lines.append(g(rng, ids=gen_id(rng, enc, n))[0])
     run_.judge('id-strings', lines)
+
+    # ---- 8-bit id strings: (a) the escape pool on every record type x both byte-per-character encodings x every
+    #      container, at the front, in the middle and at the end of the string; (b) every byte value in every one of
+    #      the 16 positions; (c) every ordered pair of adjacent byte values
+    lines = []
+    for name, g in sorted(GEN_WITH_ID.items()):
+        for enc in 'au':
+            for raw in ESCAPE_POOL:
+                lines.append(g(rng, ids=id_of_bytes(enc, raw))[0])
+                room = 16 - len(raw)
+                if room >= 2:
+                    pre = bytes(rng.randrange(0x20, 0x7f) for _ in range(rng.randrange(1, room)))
+                    lines.append(g(rng, ids=id_of_bytes(enc, pre + raw))[0])
+                    lines.append(g(rng, ids=id_of_bytes(enc, (pre + raw).ljust(16, b'.')))[0])
+    for k in range(4):      # each (type, encoding) line with each of the four containers
+        run_.judge('id-8bit-escape-pool', lines[k::4], how_cycle=(('list', 'array', 'bytes', 'tuple')[k:] +
+                                                                   ('list', 'array', 'bytes', 'tuple')[:k]))
+    lines = []
+    for j, (name, g) in enumerate(sorted(GEN_WITH_ID.items())):
+        for enc in 'au':
+            lines += [g(rng, ids=i)[0] for i in latin_square_ids(enc, 7 * j + (3 if enc == 'u' else 0))]
+    run_.judge('id-8bit-every-byte-every-position', lines)
+    names = sorted(GEN_WITH_ID)
+    combos = [(nm, enc) for nm in names for enc in 'au']
+    todo = combos if big else [combos[ctx.seed % len(combos)], combos[(ctx.seed + 5) % len(combos)]]
+    for nm, enc in todo:
+        lines = [GEN_WITH_ID[nm](rng, ids=i)[0] for i in all_pairs_ids(enc)]
+        for j in range(0, len(lines), 1000):
+            run_.judge('id-8bit-every-adjacent-pair', lines[j:j + 1000])
+        if ctx.time_left() < 60:
+            ctx.notes.append('adjacent-pair stream cut by the time budget')
+            break
 
     # ---- every channel nibble x low nibble (reserved bits of the FRU device locator, device revision of the
     #      MC confirmation record)
